@@ -74,4 +74,41 @@ def accrued_interest_query(ob):
 
 accrued_interest_query.kind = "accrued_interest_query"
 
-TABLE = {f.kind: f for f in (transact_nlv_delta, holdings_values_liquidation, accrued_interest_query)}
+def make_trades_raises(ob):
+    """C12/C13: make_trades may raise only for a missing quote; a sub-lot imbalance must be skipped, not fail"""
+    from tradingenv.broker.rebalancing import Rebalancing
+    m = model_floats(ob["model"])
+    b, c = broker_from_model(m)
+    v = S.ConcreteBrokerView(b)
+    if "nlv" in m and m["nlv"] > 0:
+        # make the account's equity equal to the model's NLV by choosing the cash balance
+        rest = sum(S.eq_term(v, k) for k in v.keys() if k != b.base_currency)
+        b._holdings_quantity[b.base_currency] = m["nlv"] - rest
+    weights_mode, fractional = bool(m.get("weights_mode", True)), bool(m.get("fractional", True))
+    if not m.get("in_target", True):
+        contracts, alloc = [], []
+    else:
+        contracts, alloc = [c], [m.get("target", 0.0)]
+    rb = Rebalancing(contracts=contracts, allocation=alloc, measure="weight" if weights_mode else "nr-contracts",
+                     fractional=fractional, margin=m.get("threshold", 0.0), time=T0)
+    v = S.ConcreteBrokerView(b)
+    missing = any(v.qty(k) != 0 and (v.bid_nan(k) if v.qty(k) > 0 else v.ask_nan(k)) for k in v.keys())
+    nlv = sum(S.eq_term(v, k) for k in v.keys())
+    try:
+        trades = rb.make_trades(b)
+        outcome = "returned %d trades" % len(trades)
+        raised = None
+    except Exception as ex:
+        raised = type(ex).__name__
+        outcome = "%s: %s" % (raised, ex)
+    quotes_present = not (v.bid_nan(c) or v.ask_nan(c))
+    reproduced = raised == "ValueError" and not missing and quotes_present and nlv > 0
+    return {"reproduced": reproduced, "construction": "state injection (A12), cash chosen so that equity = model NLV",
+            "clause": "make_trades raises ValueError only if a needed quote is missing", "outcome": outcome,
+            "pre": {"q0": v.qty(c), "target": m.get("target"), "weights_mode": weights_mode, "fractional": fractional,
+                    "bid": v.bid(c), "ask": v.ask(c), "nlv": nlv, "threshold": m.get("threshold")}}
+
+
+make_trades_raises.kind = "make_trades_raises"
+
+TABLE = {f.kind: f for f in (make_trades_raises, transact_nlv_delta, holdings_values_liquidation, accrued_interest_query)}
